@@ -285,6 +285,16 @@ def explore(ck, n, em, np, xrun=True):
         spec = np.asarray(em.planck(f_grid.reshape((m,) + (1,) * len(extra)), T)) * (1 + np.arange(int(np.prod(extra or (1,)))).reshape(extra or ()) if extra else 1)
         spec = np.asarray(spec, dtype=float)
         ck.case(key=("dens", m, len(extra), float(f_grid[0])), kind=f"density/dim{len(extra) + 1}")
+        dcase = {"fn": "density/glue", "args": f_grid.tolist(), "T": T, "extra": list(extra)}
+        if numlib.pure_call(ck, np, em.perfrequency2perwavelength, [spec, f_grid], "perfrequency2perwavelength", dcase, rtol=1e-15) is not None:
+            pm0, lm0 = em.perfrequency2perwavelength(spec.copy(), f_grid.copy())
+            numlib.pure_call(ck, np, em.perwavelength2perfrequency, [np.asarray(pm0), np.asarray(lm0)], "perwavelength2perfrequency", dcase, rtol=1e-15)
+        nu_grid = f_grid / C
+        numlib.pure_call(ck, np, em.perfrequency2perwavenumber, [spec, f_grid], "perfrequency2perwavenumber", dcase, rtol=1e-15)
+        numlib.pure_call(ck, np, em.perwavenumber2perfrequency, [spec, nu_grid], "perwavenumber2perfrequency", dcase, rtol=1e-15)
+        numlib.pure_call(ck, np, em.planck, [f_grid, np.full(m, T)], "planck", dcase, rtol=1e-15)
+        numlib.pure_call(ck, np, em.radiance2planckTb, [f_grid, np.asarray(em.planck(f_grid, T))], "radiance2planckTb", dcase, rtol=1e-15)
+        numlib.pure_call(ck, np, em.planck_wavenumber, [nu_grid, np.full(m, T)], "planck_wavenumber", dcase, rtol=1e-15)
         perm, lam = em.perfrequency2perwavelength(spec.copy(), f_grid.copy())
         if not np.all(np.diff(lam) > 0):
             ck.violation("other", "perfrequency2perwavelength: wavelength grid not ascending", {"fn": "perfrequency2perwavelength", "args": f_grid.tolist()})
